@@ -39,7 +39,7 @@ class SimOverrun(BaseException):
 class Baton:
     def __init__(self, nthreads, pkg_prefix, rng=None, p_switch=0.0,
                  table=None, cancel_plan=None, max_events=400_000,
-                 burst=True):
+                 burst=True, record_sites=None):
         self.n = nthreads
         self.pkg = pkg_prefix
         self.rng = rng
@@ -72,6 +72,8 @@ class Baton:
         self.window_hits = {}
         self.cancel_sites = []
         self._code_ids = {}
+        self.record_sites = record_sites    # (thread, op) whose line sites are recorded
+        self.sites = {}                     # (code id, line) -> [first k, last k, count, name]
         self._next_switch = None
         if rng is not None and self.p > 0:
             self._next_switch = self._gap()
@@ -122,6 +124,15 @@ class Baton:
         self.h = ((self.h * 1099511628211) ^ (self._code_id(frame.f_code) * 31 + frame.f_lineno * 7 + me)) & _MASK
         if self.events > self.max_events:
             raise SimOverrun()
+        rs = self.record_sites
+        if rs is not None and rs[0] == me and rs[1] == self.op_index[me]:
+            key = (self._code_id(frame.f_code), frame.f_lineno)
+            ent = self.sites.get(key)
+            if ent is None:
+                self.sites[key] = [k, k, 1, frame.f_code.co_name]
+            else:
+                ent[1] = k
+                ent[2] += 1
         if self.replay:
             d = self.table.get((me, self.op_index[me], k))
             if d is None:
